@@ -5,6 +5,15 @@ HERE = os.path.dirname(os.path.dirname(os.path.abspath(__file__)))
 
 # id -> (technique, level text, level note, design ref)
 CHECKS = {
+ "C01": ("runtime monitor: exact even-odd point-set membership oracle + inclusion-exclusion area identities over generated operand pairs and all receiver/argument types",
+         "Generated valid operand pairs in general position (all seven relative configurations, all nine receiver/argument type pairs the shapes admit) are run through Intersection/Union/Difference/XOr (+ reverse difference); each result is judged at up to 96 margin points by the harness's own exact even-odd membership, by the four inclusion-exclusion area identities with exact operand areas, by ring closure, by the empty-result rule, and Polygonal.Area()/Point.Within on results are compared with the harness's values.",
+         "Operand validity and general position are enforced by the harness's exact predicates; membership is only judged at points with a 1e-7*diameter margin; the external clipper is exercised through geom's API only.", "§4 C01"),
+ "C02": ("runtime monitor: exact integer/rational crossing-number and on-segment oracle; complete enumeration of a small grid sub-space in the thorough tier",
+         "Every point of the half-integer grid is classified against unfiltered grid polygons (self-intersecting, degenerate, unclosed, clockwise, multi-ring, multi-member, boxes) and compared with an exact oracle; float polygons (including edges whose end ordinates differ by one ulp from the query ordinate) are judged at margin points in exact rational arithmetic; MultiPoint/LineString/MultiLineString/Polygon receivers are checked against 'Outside iff some vertex is Outside'. Thorough additionally enumerates all triangles and quadrilaterals on the 4x4 grid against all 49 half-grid points.",
+         "Exactness of the oracle rests on math/big and a Shewchuk-style float filter; a ring counts when it stores >= 3 vertices.", "§4 C02"),
+ "C03": ("runtime monitor: exact rational (math/big) area/centroid/length/distance references over the spelling orbit of generated valid shapes",
+         "Valid lattice polygons and multi-polygons are explored over their reversal x rotation x closure orbit (complete for <= 3 rings) and a float similarity image; Area must equal the exact rational area (== on the grid), centroids the exact area-weighted centroid, Length/Distance 200-bit references, Buffer the regular n-gon; op.Area/op.Centroid/op.Length under their documented preconditions.",
+         "Centroid of Polygon/op only under the property's preconditions (closed, alternating winding); float images keep translation <= 10x size.", "§4 C03"),
  "C04": ("runtime monitor: harness flattening / min-max fold / lattice-law oracle over generated geometries and box triples",
          "Every generated geometry (8 types, empty members, nested collections, special float values) is run through Points/Len/Bounds under recover() and compared with an independent flattening and min/max fold; box pairs/triples are judged against the join/overlap/intersection model. Held on the executions produced, not a proof.",
          "Trusts the harness's own flattening (30 lines) and IEEE min/max; NaN coordinates and non-canonical empty boxes are outside the quantifier.", "§4 C04"),
